@@ -34,8 +34,11 @@ TECHNIQUE = (
 RULE = (
     "case = one string: (i) each enumerated code point c placed in each context template, (ii) each word of <=k "
     "tokens of the markup alphabet M placed in the contexts '{}' and 'A{}B'; canonical = the string itself "
-    "(strings of (ii) already produced by (i) are skipped). Every case runs through every operation (h x u entity "
-    "trim decode.* as direct call and as ${v|f} template; encode + Template.render for 5 charsets). Non-trivial = "
+    "(strings of (ii) already produced by (i) are skipped). Every case runs through every operation as a direct call "
+    "(h x u entity trim; decode.utf8/latin1/ascii on str, bytes, other object; str.encode(cs,'htmlentityreplace') for 5 "
+    "charsets); the template routes (${v|f}, ${v|n,decode.X}, Template(output_encoding=cs, encoding_errors=...).render) "
+    "run on every case in thorough and, in quick, on the cases of the first two contexts and all words (decode "
+    "templates: utf-8 only). Non-trivial = "
     "the string contains a character that at least one filter must change (markup character, non URL-safe "
     "character, named-entity character, leading/trailing whitespace) or that at least one target charset cannot encode."
 )
@@ -53,6 +56,8 @@ BOUNDS = {
         "contexts": ["{}", "A{}B", "{}{}", "&{};", " {}\n"],
         "word_len": 3,
         "word_contexts": ["{}", "A{}B"],
+        "decode_template_routes": "utf-8",
+        "template_route_contexts": 2,
         "charsets": ["ascii", "latin-1", "cp1251", "shift_jis", "utf-8"],
     },
     "thorough": {
@@ -60,6 +65,8 @@ BOUNDS = {
         "contexts": ["{}", "A{}B", "{}{}", "&{};", " {}\n", "<{}>", "{}A{}", "&#{};"],
         "word_len": 4,
         "word_contexts": ["{}", "A{}B"],
+        "decode_template_routes": "all",
+        "template_route_contexts": 8,
         "charsets": ["ascii", "latin-1", "cp1251", "shift_jis", "utf-8"],
     },
 }
@@ -72,7 +79,7 @@ POOL_B = ["c", "m", "y", "Z"]  # filler after
 POOL_L1 = ["é", "ß", "ñ", "ü"]  # latin-1, has a named entity
 POOL_NAMED = ["€", "†", "…", "™"]  # not latin-1, in cp1251, has a named entity
 POOL_BMP = ["ж", "中", "א", "ก"]  # no named entity
-POOL_ASTRAL = ["\U0001d11e", "\U0001f600", "\U00010348", "\U000e0041"]
+POOL_ASTRAL = ["\U0001d11e", "\U0001f600", "\U00010348", "\U000e0141"]  # none in the quick code point set
 POOL_DEC = [
     ("utf8", "latin1", "ascii"),
     ("utf_8", "latin_1", "us_ascii"),
@@ -110,7 +117,13 @@ def in_cpset(cp, tier):
 
 
 def code_points(tier):
-    return [cp for cp in range(0x110000) if in_cpset(cp, tier)]
+    if tier != "quick":
+        return list(range(0xD800)) + list(range(0xE000, 0x110000))
+    cps = list(range(0xD800)) + list(range(0xE000, 0x10000))
+    for plane in range(1, 17):
+        cps += range(plane * 0x10000, plane * 0x10000 + 0x100)
+        cps += range(plane * 0x10000 + 0xFF00, plane * 0x10000 + 0x10000)
+    return cps
 
 
 def in_family_i(s, tier, ctxs):
@@ -409,7 +422,7 @@ def _cls(c):
 # --------------------------------------------------------------------------
 
 
-def check_string(s, st, I, only=None):
+def check_string(s, st, I, only=None, tmpl=True):
     """run every operation on one string.  `only` (replay) = (op, route) filter for reporting."""
     viol = []
     oc = st.outcomes
@@ -425,7 +438,7 @@ def check_string(s, st, I, only=None):
     # h, x, u, entity, trim: direct call and ${v | f}
     for name in ("h", "x", "u", "entity", "trim"):
         prev = None
-        for route, f in (("direct", I["direct"][name]), ("template", I["tmpl"][name])):
+        for route, f in (("direct", I["direct"][name]), ("template", I["tmpl"][name])) if tmpl else (("direct", I["direct"][name]),):
             ok, out = call(f, s) if route == "direct" else call(f, v=s)
             nev += 1
             if not ok:
@@ -463,9 +476,11 @@ def check_string(s, st, I, only=None):
             except UnicodeEncodeError:
                 pass
         for kind, x, exp in inputs:
-            routes = [("direct", f), ("template", t_n)]
-            if kind != "bytes-utf8" and kind != "bytes-own":
-                routes.append(("template-str", t_str))
+            routes = [("direct", f)]
+            if tmpl and (I["dec_templates"] == "all" or std == "utf-8"):
+                routes.append(("template", t_n))
+                if kind != "bytes-utf8" and kind != "bytes-own":
+                    routes.append(("template-str", t_str))
             for route, g in routes:
                 ok, out = call(g, x) if route == "direct" else call(g, v=x)
                 nev += 1
@@ -491,7 +506,7 @@ def check_string(s, st, I, only=None):
     # encoding error handler: str.encode and Template.render
     for cs in CHARSETS:
         prev = None
-        for route in ("direct", "template"):
+        for route in ("direct", "template") if tmpl else ("direct",):
             if route == "direct":
                 ok, out = call(s.encode, cs, "htmlentityreplace")
             else:
@@ -514,11 +529,12 @@ def check_string(s, st, I, only=None):
                 r2, nn, nx = aligned_enc(s, out2, cs)
                 if r2 is None:
                     sig = "references wrapped in b'...' (str() of a bytes object)"
-                elif out2 != out:
-                    # the wrapper is present AND something else is wrong: classify by the other failure
-                    sig = "%s %s" % (r2[0], _cls(r2[1]))
                 else:
-                    sig = "%s %s" % (r[0], _cls(r[1]))
+                    # if the wrapper is present AND something else is wrong: classify by the other failure
+                    rr = r2 if out2 != out else r
+                    sig = rr[0]
+                    if "reference" in rr[0]:
+                        sig += " (%s)" % _cls(rr[1])
                 viol.append((op, route, sig, "an unencodable character is not replaced by a reference that decodes back to it: " + r[0], repr(out)))
             else:
                 try:
@@ -539,12 +555,12 @@ def check_string(s, st, I, only=None):
     return len(viol)
 
 
-def check_case(s, st, I):
+def check_case(s, st, I, tmpl=True):
     st.states += 1
     st.traces += 1
     if nontrivial(s):
         st.nontrivial += 1
-    check_string(s, st, I)
+    check_string(s, st, I, tmpl=tmpl)
 
 
 # --------------------------------------------------------------------------
@@ -572,16 +588,18 @@ def run_job(job):
     tier, seed = job["tier"], job["seed"]
     I = impl(seed)
     I["seed"] = seed
+    I["dec_templates"] = BOUNDS[tier]["decode_template_routes"]
     d = I["d"]
     ctxs = contexts(tier, d)
+    ntmpl = BOUNDS[tier]["template_route_contexts"]
     if job["kind"] == "cp":
         cps = code_points(tier)[job["shard"] :: job["nshards"]]
         n = 0
         for cp in cps:
             c = chr(cp)
-            for t in ctxs:
+            for ti, t in enumerate(ctxs):
                 s = t.replace("{}", c)
-                check_case(s, st, I)
+                check_case(s, st, I, ti < ntmpl)
                 n += 1
                 if cp in _SAMPLE_CPS and _SAMPLE_CPS[cp] == ctxs.index(t):
                     st.sample({"family": "i", "context": t, "code_point": "U+%04X" % cp, "string": s})
@@ -612,7 +630,7 @@ def run_job(job):
                         st.sample({"family": "ii", "context": t, "word": list(w)})
         st.extra["words"] = nwords
         st.extra["strings_ii"] = len(seen)
-    st.extra["cpu_s_" + job["kind"]] = round(time.time() - t0, 1)
+    st.extra["worker_wall_s_" + job["kind"]] = round(time.time() - t0, 1)
     return st
 
 
@@ -632,6 +650,7 @@ def replay(case):
     seed = case.get("seed", 0)
     I = impl(seed)
     I["seed"] = seed
+    I["dec_templates"] = "all"
     st = Stats()
     check_string(case["s"], st, I, only=(case["op"], case["route"]))
     if st.violations:
@@ -644,11 +663,11 @@ LEVEL_TEXT = (
     "Every Unicode scalar value (thorough: all 1 112 064; quick: the BMP and the edges of every other plane) in each "
     "embedding context, and every word of <=k tokens over the 19-token markup alphabet, is passed through h, x, u, "
     "entity, trim and decode.<enc> (direct call and ${v|f} template), through str.encode(cs,'htmlentityreplace') and "
-    "through Template.render with that error handler for five charsets; each clause of the statement is one predicate "
+    "through Template.render with that error handler for five charsets (quick: template routes on the contexts '{}' and 'A{}B' only); each clause of the statement is one predicate "
     "checked on each result. Complete within those bounds; no sampling."
 )
 LEVEL_NOTE = (
     "Trusted: CPython str/re/codecs, html.entities tables, the ~80-line aligned reference decoders. Strings longer "
     "than the bounds are covered only by the character-by-character structure that the aligned oracle verifies on every case."
 )
-READY = False
+READY = True
